@@ -33,6 +33,26 @@ Theorem C03_offending_assertion_any_position : forall cfg now r pre x post e,
 Proof. exact offending_assertion_any_position. Qed.
 Print Assumptions C03_offending_assertion_any_position.
 
+(* the verdict depends on Destination, Version, Status, Issuer and the SET of assertions — on nothing else of the
+   response (not the order or multiplicity of assertions, not ID / InResponseTo / IssueInstant / flags) *)
+Theorem C03_acceptance_depends_on_assertion_set_only : forall cfg now r r',
+  r_destination r = r_destination r' -> r_version r = r_version r' ->
+  r_status r = r_status r' -> r_issuer r = r_issuer r' ->
+  (forall a, In a (r_assertions r) <-> In a (r_assertions r')) ->
+  (validate cfg now r = Ok tt <-> validate cfg now r' = Ok tt).
+Proof. exact acceptance_depends_on_assertion_set_only. Qed.
+Print Assumptions C03_acceptance_depends_on_assertion_set_only.
+
+Theorem C03_acceptance_invariant_under_permutation : forall cfg now r l,
+  Permutation.Permutation (r_assertions r) l ->
+  (validate cfg now r = Ok tt <->
+   validate cfg now {| r_id := r_id r; r_in_response_to := r_in_response_to r; r_destination := r_destination r;
+                       r_version := r_version r; r_issue_instant := r_issue_instant r; r_status := r_status r;
+                       r_issuer := r_issuer r; r_assertions := l; r_encrypted_count := r_encrypted_count r;
+                       r_signature_validated := r_signature_validated r |} = Ok tt).
+Proof. exact acceptance_invariant_under_permutation. Qed.
+Print Assumptions C03_acceptance_invariant_under_permutation.
+
 (* when the response-level checks pass, the error is that of the FIRST offending assertion *)
 Theorem C03_first_failing_assertion_decides : forall cfg now r e,
   validate cfg now r = Err e ->
